@@ -13,7 +13,7 @@
    * Python's stack (a list whose top is its END) is a Coq list whose top is its HEAD, so
      `stack.extend(l)` is `rev l ++ stack`;
    * `visiting`/`visited` (Python sets, only tested for membership) are lists. *)
-From Coq Require Import List Arith Bool.
+From Coq Require Import List Arith Bool Relations.
 Import ListNotations.
 From Dagrt Require Import Simplify.
 
@@ -157,6 +157,24 @@ Definition nest_rep {A} (trips : nat -> nat) (loops : list nat) (l : list A) : l
 Definition runs (v : nat -> bool) (st : stmt) : bool := negb (snop st) && evalc v (sguard st).
 Definition stmt_trace (trips : nat -> nat) (st : stmt) : list (nat * list nat) :=
   nest_rep trips (sloops st) [(sid st, sloops st)].
+
+(* ---- specification vocabulary: well-formed phases (C10's accepted predicate) ---- *)
+(* a depends on b *)
+Definition edge (stmts : list stmt) (a b : nat) : Prop :=
+  exists st, lookup stmts a = Some st /\ In b (sdeps st).
+Definition acyclic (stmts : list stmt) : Prop := forall x, ~ clos_trans nat (edge stmts) x x.
+(* dependencies stay inside the phase *)
+Definition closed (stmts : list stmt) : Prop :=
+  forall st d, In st stmts -> In d (sdeps st) -> In d (map sid stmts).
+Record phase_wf (stmts : list stmt) : Prop := {
+  wf_unique : NoDup (map sid stmts);                       (* ids are unique *)
+  wf_closed : closed stmts;
+  wf_acyclic : acyclic stmts }.
+(* a looped statement is not guarded by the literal constant False *)
+Definition no_false_loop (st : stmt) : Prop := sloops st <> [] -> sguard st <> CFalse.
+(* every statement comes after everything it depends on *)
+Definition respects_deps (sts : list stmt) : Prop :=
+  forall l1 st l2, sts = l1 ++ st :: l2 -> incl (sdeps st) (map sid l1).
 
 (* ---- StructuredCodeGenerator.lower_node: the emit_* callback sequence ---- *)
 Inductive event :=
